@@ -572,6 +572,13 @@ func (s *jsim) oneJustification(j int) {
 		totalW += w
 	}
 	amount := k.Choose(8, "how-many-signers") // 0..4 just enough, 5 everybody, 6..7 one too few
+	above := s.descendantsOf(sp.target, true)
+	onChild := -1 // nearly everybody votes above the target: the precommit GHOST is then higher than the commit target
+	if len(above) > 0 && k.Bool(1, 12, "most-vote-above-target") {
+		onChild = above[k.Choose(len(above), "most-vote-above-which")]
+		sp.tag("most-above-target")
+		amount = 5
+	}
 	var signers []int
 	for _, i := range mp {
 		if amount <= 4 || amount >= 6 {
@@ -587,21 +594,15 @@ func (s *jsim) oneJustification(j int) {
 		sp.tag("one-signer-short")
 	}
 	// --- what they vote for
-	above := s.descendantsOf(sp.target, true)
 	var below []int
 	for x := s.t.parent[sp.target]; x >= 0; x = s.t.parent[x] {
 		below = append(below, x)
-	}
-	onChild := -1 // everybody votes above the target: the precommit GHOST is then higher than the commit target
-	if len(above) > 0 && k.Bool(1, 12, "all-vote-above-target") {
-		onChild = above[k.Choose(len(above), "all-vote-above-which")]
-		sp.tag("all-above-target")
 	}
 	for _, key := range signers {
 		b := sp.target
 		switch c := k.Choose(12, "vote"); {
 		case onChild >= 0:
-			if !k.Bool(1, 3, "but-this-one-on-target") {
+			if !k.Bool(1, 5, "but-this-one-on-target") {
 				b = onChild
 			}
 		case c <= 6:
